@@ -464,9 +464,172 @@ impl Prop for Undecodable {
     }
 }
 
+
+// ---------------------------------------------------------------------------------------
+// Part `get-state-under-writes`: "the peer's state at the moment it answered".  The reply carries the keyspace's
+// change stamp next to the state, and the poller stops asking while the peer keeps reporting that stamp: a reply
+// labelled with the stamp the keyspace still has once everything is quiet must therefore carry that final state.
+
+#[derive(Debug, Clone)]
+pub struct UnderWritesCase {
+    /// documents in the keyspace before anything else happens
+    pub preload: usize,
+    /// (start after ms, key, delete?) -- writes sent to the keyspace actor concurrently
+    pub writes: Vec<(u64, u64, bool)>,
+    /// start times of the state requests
+    pub fetches: Vec<u64>,
+    pub write_latency_ms: u64,
+}
+
+pub struct UnderWrites;
+
+impl Prop for UnderWrites {
+    type Case = UnderWritesCase;
+
+    fn id(&self) -> &'static str {
+        "C19"
+    }
+
+    fn part(&self) -> &'static str {
+        "get-state-under-writes"
+    }
+
+    fn width(&self) -> usize {
+        48
+    }
+
+    fn breadcrumbs(&self) -> bool {
+        true
+    }
+
+    fn shrink_budget(&self) -> usize {
+        300
+    }
+
+    fn gen(&self, src: &mut Src) -> UnderWritesCase {
+        let write_latency_ms = *src.pick(&[1u64, 3, 10]);
+        let n_w = 1 + src.below(5);
+        let writes = (0..n_w).map(|_| (src.below64(40), 1 + src.below64(4), src.chance(1, 3))).collect();
+        let n_f = 1 + src.below(4);
+        let fetches = (0..n_f).map(|_| src.below64(45)).collect();
+        UnderWritesCase { preload: src.below(4), writes, fetches, write_latency_ms }
+    }
+
+    fn run(&self, case: &UnderWritesCase) -> Outcome {
+        e3::sim(1, 70_000_000, BTreeMap::new(), |_net| run_under_writes(case))
+    }
+
+    fn describe(&self, case: &UnderWritesCase) -> Value {
+        json!({
+            "preloaded_documents": case.preload,
+            "storage_write_latency_ms": case.write_latency_ms,
+            "writes_(start_ms,key,delete)": case.writes,
+            "state_requests_start_ms": case.fetches,
+        })
+    }
+
+    fn rule(&self) -> &'static str {
+        "one keyspace served by the real ReplicationService over a store whose writes take 1-10 simulated ms; 1-5 \
+         writes (set / delete on 1-4 keys) are sent to the keyspace actor and 1-4 state requests are issued through the \
+         real ReplicationClient at generated instants within 45 ms, so that requests queue between writes; once \
+         everything is quiet the state is requested again; oracle: every reply whose change stamp equals the final \
+         change stamp carries exactly the final state (live ids, tombstones, stamps); non-trivial = a state request \
+         was issued while a write was in flight"
+    }
+}
+
+async fn run_under_writes(case: &UnderWritesCase) -> Outcome {
+    let addr: SocketAddr = ([10, 4, 0, 2], 7000).into();
+    let store = ModelStore::default();
+    let group = e2::new_group(store.clone(), 1).await;
+    let server = Server::listen(addr).await.expect("listen");
+    server.add_service(ReplicationService::new(group.clone()));
+    let ks = "ks";
+    let m = group.get_or_create_keyspace(ks).await;
+    for i in 0..case.preload {
+        let stamp = Stamp { secs: 69_999_000, frac: 0, counter: i as u16, node: 3 };
+        let _ = m.send(e2::msg_set(0, e2::doc(10 + i as u64, stamp, 2))).await;
+    }
+    store.inner.lock().write_latency_ms = case.write_latency_ms;
+    let t0 = tokio::time::Instant::now();
+    let mut overlapped = false;
+    let in_flight = Arc::new(std::sync::atomic::AtomicUsize::new(0));
+    let mut write_tasks = vec![];
+    for (i, (at, key, delete)) in case.writes.iter().enumerate() {
+        let m = m.clone();
+        let (at, key, delete) = (*at, *key, *delete);
+        let in_flight = in_flight.clone();
+        write_tasks.push(tokio::spawn(async move {
+            tokio::time::sleep(std::time::Duration::from_millis(at)).await;
+            let stamp = Stamp { secs: 70_000_000 + i as u64, frac: 0, counter: 0, node: 3 };
+            in_flight.fetch_add(1, std::sync::atomic::Ordering::SeqCst);
+            if delete {
+                let _ = m.send(e2::msg_del(0, e2::meta(key, stamp))).await;
+            } else {
+                let _ = m.send(e2::msg_set(0, e2::doc(key, stamp, 2))).await;
+            }
+            in_flight.fetch_sub(1, std::sync::atomic::Ordering::SeqCst);
+        }));
+    }
+    let mut fetch_tasks = vec![];
+    for at in &case.fetches {
+        let at = *at;
+        let in_flight = in_flight.clone();
+        fetch_tasks.push(tokio::spawn(async move {
+            tokio::time::sleep(std::time::Duration::from_millis(at)).await;
+            let busy = in_flight.load(std::sync::atomic::Ordering::SeqCst) > 0;
+            let mut client = ReplicationClient::<ModelStore>::new(Clock::new(2), Channel::connect(addr));
+            (at, busy, client.get_state("ks").await)
+        }));
+    }
+    for t in write_tasks {
+        let _ = t.await;
+    }
+    let mut replies = vec![];
+    for t in fetch_tasks {
+        let (at, busy, r) = t.await.expect("fetch task");
+        overlapped |= busy;
+        match r {
+            Ok((lu, set)) => replies.push((at, lu, set)),
+            Err(status) => return Err(Fail { signature: "get-state-failed".into(), message: format!("get_state at {at} ms failed: {status:?}") }),
+        }
+    }
+    let _ = t0;
+    // quiet now: the final word
+    let mut client = ReplicationClient::<ModelStore>::new(Clock::new(2), Channel::connect(addr));
+    let (final_lu, final_set) = client.get_state(ks).await.map_err(|s| Fail { signature: "get-state-failed".into(), message: format!("final get_state failed: {s:?}") })?;
+    let final_view = view(&final_set);
+    let mut current_label = 0;
+    for (at, lu, set) in &replies {
+        if *lu == final_lu {
+            current_label += 1;
+            let v = view(set);
+            ensure!(
+                v == final_view,
+                "state-older-than-its-change-stamp",
+                "the reply to the request issued at {at} ms is labelled with change stamp {:?}, which is still the keyspace's stamp when everything is quiet, but carries {:?} while the keyspace holds {:?}: a peer that records this stamp will not ask again",
+                Stamp::of(*lu),
+                v,
+                final_view
+            );
+        }
+    }
+    datacake_rpc::verif::unregister(addr);
+    server.shutdown();
+    let mut labels = vec![];
+    if overlapped {
+        labels.push("request_while_a_write_was_in_flight");
+    }
+    if current_label > 0 {
+        labels.push("reply_labelled_with_the_final_stamp");
+    }
+    Ok(Pass { nontrivial: overlapped, labels })
+}
+
 pub fn parts() -> Vec<Box<dyn DynPart>> {
     vec![
         Box::new(Gen::new(Transfer, 6_000, 300_000)),
         Box::new(Gen::new(Undecodable, 3_000, 100_000)),
+        Box::new(Gen::new(UnderWrites, 60_000, 3_000_000)),
     ]
 }
